@@ -27,6 +27,7 @@ done
 if [[ $H == fz_* ]]; then L="-fsanitize=fuzzer,address,undefined"; R=""; else L="-fsanitize=address,undefined"; R="-lrapidcheck"; fi
 clang++-14 $FLAGS $INC /verif/harness/$H.cpp -o "$T/$H" $L -fopenmp "$T/libgstlearn.a" $B/libcsparse.a $B/libgmtsph.a -lnlopt $R
 set +e
+if [ -n "$KEEP_BIN" ]; then cp "$T/$H" "$KEEP_BIN"; echo "binary kept: $KEEP_BIN"; exit 0; fi
 EXCL=$(python3 - <<PY
 import json
 k=json.load(open('/verif/known_findings.json'))
